@@ -233,6 +233,8 @@ DATA_MOVE = {
     "copy": [0],
     "copy_p": [0],
     "split": [0],
+    "unstack": [0],
+    "stack": None,
     "real": [0],
     "reduce_precision": [0],
     "optimization_barrier": None,
